@@ -169,6 +169,38 @@ CHECKS["C03"] = dict(
    note=TB + "Siddon ray tracing and the TOF kernel are uninterpreted (their equivariance is oracle-only); only the cylindrical branch is modelled; 32-bit overflow not modelled; translator trusts that constructors store arguments in the members of the same name.",
    design="DESIGN.md §4 C03")
 
+CHECKS["C07"] = dict(
+   technique="Lean 4 proofs over Rat/Real (EM update formula, non-negativity, count preservation, MAP denominator bounds, log-likelihood monotonicity, restart equality by induction over the run), exact-Rat differential correspondence on the real OSMAPOSLReconstruction",
+   text="Proof: for every image size, matrix, data and configuration the model of the OSMAPOSL sub-iteration is the voxelwise EM formula (zero where the subset sensitivity and numerator vanish), every branch (MAP additive / "
+        "multiplicative clamps, arbitrary positivity-preserving filters) keeps non-negative images non-negative for whole runs, one full-data update without additive term preserves the sensitivity-weighted sum, the MAP "
+        "denominators obey the documented bounds, with a single subset the Poisson log-likelihood does not decrease (Jensen argument over the reals), and the state after k sub-iterations is (image_k, k): the resumed run "
+        "equals the uninterrupted run whenever set_up leaves image_k alone (characterised exactly) and always when resumed with enforce_initial_positivity off. With the default option and an image containing exact zeros the "
+        "restart clause fails: two negative witnesses and a listed known finding. Tie: real OSMAPOSLReconstruction (set_up / update_estimate / reconstruct, restarts from saved iterates compared bitwise, option both ways) on "
+        "generated problems with explicit matrices; every iterate compared per voxel with the exact model under a derived tolerance; formula, counts, monotone objective and restart oracles on the implementation.",
+   note=TB + "float rounding by derived bound; the subset gradient-plus-sensitivity, sensitivities and prior gradient are data for the model (C05/C09); user filters abstract; randomised subset order excluded (C06); post-filter, parametric images and MPI not covered.",
+   design="DESIGN.md §4 C07")
+CHECKS["C09"] = dict(
+   technique="Lean 4 proofs (exact algebra over Rat for the quadratic prior; HasDerivAt over the reals for RDP, log-cosh and PLS; Hessian symmetry/PSD under symmetric weights), exact-Rat/Float differential correspondence on the real prior classes",
+   text="Proof: for the shared neighbourhood loops of QuadraticPrior, RelativeDifferencePrior and LogcoshPrior, for every image box, weights, kappa: linear scaling in the penalisation factor, zero gradient of uniform images, "
+        "border voxels use only in-image neighbours, Hessian-times-vector is the derivative of the gradient (exact affine identity for the quadratic prior) for ALL weights; under symmetric weights the Hessian row equals H applied "
+        "to the unit vector, H is symmetric, the exact second-order expansion holds for the quadratic prior, gradient = derivative of value for RDP and log-cosh, and with non-negative weights/kappa H is positive semi-definite; "
+        "for PLSPrior the partial derivative of the value with respect to every voxel (borders and any kappa included) equals the gradient. Asymmetric user weights break the symmetric-weight clauses: negative witnesses and "
+        "a listed known finding. Tie: the real prior classes on random images from 1x1x1 up (singleton dimensions, anisotropic spacing, user weights, only_2D, kappa), every quantity compared element by element with the model "
+        "under a derived float bound; algebraic-identity and central-difference oracles on the implementation. Three defects found this way were repaired in /repo (PLS gradient at borders, PLS kappa, Hessian centre weight).",
+   note=TB + "sqrt/log/cosh/tanh are Float in the driver and real functions in the proofs; PLS convexity and RDP derivatives at equal neighbouring values are oracle-only; parsing and set_up guards not modelled.",
+   design="DESIGN.md §4 C09")
+CHECKS["C12"] = dict(
+   technique="Lean 4 proofs (interleaving/chord geometry, axial midpoint, antisymmetry and monotonicity of coordinates, TOF table, arc-corrected round trip, nearest-detector round trip at most one step), Float/Rat differential correspondence on the real ProjDataInfo classes and ArcCorrection",
+   text="Proof: the chord through a bin's detectors gives its tangential offset and azimuthal angle (exactly for even tangential positions, within half a view step otherwise), the axial midpoint equals the mean over the "
+        "contributing ring pairs, get_m / get_s are antisymmetric and monotone, opposite segments have opposite obliqueness and segment 0 of every accepted table is symmetric, the TOF table is antisymmetric, contiguous and "
+        "monotone, for arc-corrected data get_bin(get_LOR(bin)) = bin in exact arithmetic for every TOF bin, arc-corrected sampling is uniform and the arc-correction output boxes are contiguous; transaxially every answer of the "
+        "model's detector-based round trip is a miss or a bin at most one step away inside the data range (no miss away from the first/last tangential position). Average obliqueness = nominal only for odd span away from cut "
+        "ring-pair lists, and misses occur at the tangential edge: partial theorems with negative witnesses = four listed known findings. Tie: all bins of generated and predefined geometries (cylindrical arc-corrected and not, "
+        "blocks, generic; spans, mashing, TOF) on the real classes, coordinates compared in binary64 under a derived bound, round-trip and straight-line oracles on the implementation; arc correction and overlap_interpolate on "
+        "random rows against an exact Rat model. Five defects found this way were repaired in /repo.",
+   note=TB + "sin/asin/atan2/sqrt and rounding at ties (modelled as either neighbour) are not verified; segment/axial/TOF part of the detector-based round trip and the blocks/generic crystal maps are correspondence/oracle-only; 32-bit overflow not modelled.",
+   design="DESIGN.md §4 C12")
+
 NOT_YET = {}
 
 def main():
